@@ -2,7 +2,7 @@
 import ast
 
 from ..model import AnchorError, call_name, const_str, dotted, src
-from ..rules import FuncView, suffix_match
+from ..rules import FuncView, suffix_match, path_condition, formula_equiv
 from . import _framing
 
 EXPLANATION = (
@@ -89,10 +89,22 @@ def check(ctx):
     S = FuncView(ctx, so, may_raise=send_may_raise)
     c = S.cfg
     pop = S.need(S.call_nodes("self.txPkts.popleft"), "txPkts.popleft()")
-    bt = S.need(S.tests(lambda t: src(t) == "ha in blockeds"), "`ha in blockeds` test")
     send = S.need(S.call_nodes("self.handler.send"), "handler.send(...)")
-    ctx.check(S.dominated_by_edge(send, bt[0], "F") and len(pop) == 1 and S.dominated(bt, pop), "T1-blocked", so,
-              "send only if the destination has not blocked in this pass", "a packet must not overtake an earlier deferred packet to the same destination")
+    st = pop[0].ast
+    dest = st.targets[0].elts[1].id if isinstance(st, ast.Assign) and isinstance(st.targets[0], ast.Tuple) and len(st.targets[0].elts) == 2 \
+        and isinstance(st.targets[0].elts[1], ast.Name) else "ha"
+    # the send happens exactly when this packet's own destination has not blocked in this pass (no wider, no narrower test)
+    pcs = ("or", [path_condition(S, n, start=[pop[0].id]) for n in send])
+    okb = len(pop) == 1 and formula_equiv(pcs, "not (%s in blockeds)" % dest)
+    ctx.check(okb, "T1-blocked", so, "send exactly if the packet's destination has not blocked in this pass",
+              "a packet must not overtake an earlier deferred packet to the same destination; a packet to a destination that did "
+              "not block must not be held back behind some other destination")
+    apps = S.calls("blockeds.append")
+    ctx.check(bool(apps) and all(len(c_.args) == 1 and src(S.sym(c_.args[0], n_)) == dest for n_, c_ in apps), "T1-blocked", so,
+              "only the failing packet's own destination is marked blocked (%s)" % [src(c_) for _, c_ in apps],
+              "marking anything else (a host, another address) defers packets whose destination never failed")
+    bt = S.tests(lambda t: "blockeds" in src(t))
+    S.need(bt, "test on blockeds")
     rets = [n for n in c.nodes if n.kind == "return"]
     for r in rets:
         if S.dominated_by_edge([r], bt[0], "T"):
